@@ -1596,7 +1596,7 @@ pub fn vary_pub(proto: Proto, base: &Def, other: &Def, how: u8, pos: u8, w: u8) 
 
 /// Conformant packets whose record / field / set / template COUNTS sit on and around the
 /// boundaries where a narrower counter, index type or "reasonable" cap would bite (2^8, 2^10,
-/// 2^12, 2^14): records per data set, fields per template, data sets per packet, template
+/// 2^12, 2^14, 2^15 and the datagram limit): records per data set, fields per template, data sets per packet, template
 /// records per template flowset (V9) resp. template sets per message (IPFIX). One-byte and
 /// four-byte unsigned fields only, so every oracle (decode, re-export, JSON) applies.
 pub fn boundary_count_cases(proto: Proto) -> Vec<Case> {
@@ -1623,7 +1623,7 @@ pub fn boundary_count_cases(proto: Proto) -> Vec<Case> {
         enc_set(&mut s, id, body, 0);
         s.0
     };
-    for n in [254usize, 255, 256, 257, 1023, 1024, 1025, 4095, 4096, 4097, 16383, 16384, 16385] {
+    for n in [254usize, 255, 256, 257, 1023, 1024, 1025, 4095, 4096, 4097, 16383, 16384, 16385, 32767, 32768, 32769, 65500] {
         // (a) n one-byte records in one data set
         let body: Vec<u8> = (0..n).map(|i| (i % 251 + 1) as u8).collect();
         out.push(Case::history(vec![pkt(1, &tpl(256, vec![(5, 1)])), pkt(1, &data(256, &body))]));
